@@ -51,6 +51,112 @@ func bansSender(f *ast.File, b *ast.BlockStmt) bool {
 	return false
 }
 
+// renameIdents renames, in a PRIVATE syntax tree, every identifier whose name is
+// a key of m.  The facts below are stated in the vocabulary of the original
+// source (response, foundBlock, curHeader, ...); locals are first mapped to that
+// vocabulary by the ROLE they play, so that renaming a local is not a change.
+func renameIdents(root ast.Node, m map[string]string) {
+	ast.Inspect(root, func(n ast.Node) bool {
+		if id, ok := n.(*ast.Ident); ok {
+			if to, ok := m[id.Name]; ok && to != id.Name {
+				id.Name = to
+			}
+		}
+		return true
+	})
+}
+
+func paramNames(ft *ast.FuncType) []string {
+	var out []string
+	if ft == nil || ft.Params == nil {
+		return out
+	}
+	for _, fl := range ft.Params.List {
+		if len(fl.Names) == 0 {
+			out = append(out, "_")
+		}
+		for _, n := range fl.Names {
+			out = append(out, n.Name)
+		}
+	}
+	return out
+}
+
+func recvName(fd *ast.FuncDecl) string {
+	if fd.Recv != nil && len(fd.Recv.List) == 1 && len(fd.Recv.List[0].Names) == 1 {
+		return fd.Recv.List[0].Names[0].Name
+	}
+	return ""
+}
+
+// typeAssertLHS returns the first left-hand name of `x, ok := <param>.(<typ>)`.
+func typeAssertLHS(st ast.Stmt, param, typ string) string {
+	as, ok := st.(*ast.AssignStmt)
+	if !ok || len(as.Rhs) != 1 || len(as.Lhs) == 0 {
+		return ""
+	}
+	ta, ok := as.Rhs[0].(*ast.TypeAssertExpr)
+	if !ok || src(ta.X) != param || src(ta.Type) != typ {
+		return ""
+	}
+	return src(as.Lhs[0])
+}
+
+// responseHandlerOf finds the response handler of fd by its ROLE: the function
+// literal registered as `HandleResp:` in the query.Request literal built in fd
+// (resolved by the C18 callback finder on the type-checked package), located in
+// the private syntax tree f by its position.
+func responseHandlerOf(f *ast.File, fd *ast.FuncDecl) *ast.FuncLit {
+	var want token.Position
+	if pi := loadPkg(""); pi != nil {
+		for _, ci := range findCallbacks(pi, func(b string) string { return b }) {
+			if ci.lit != nil && ci.encl != nil && ci.encl.Name.Name == fd.Name.Name && ci.File == "query.go" &&
+				recvName(ci.encl) != "" && ci.encl.Recv != nil && src(ci.encl.Recv.List[0].Type) == src(fd.Recv.List[0].Type) {
+				want = fset.Position(ci.lit.Pos())
+			}
+		}
+	}
+	var found *ast.FuncLit
+	if want.IsValid() {
+		ast.Inspect(fd.Body, func(n ast.Node) bool {
+			if fl, ok := n.(*ast.FuncLit); ok {
+				p := fset.Position(fl.Pos())
+				if p.Line == want.Line && p.Column == want.Column {
+					found = fl
+				}
+			}
+			return true
+		})
+	}
+	if found != nil {
+		return found
+	}
+	// syntactic fallback: HandleResp: <func literal | local bound to one>
+	bound := map[string]*ast.FuncLit{}
+	ast.Inspect(fd.Body, func(n ast.Node) bool {
+		if as, ok := n.(*ast.AssignStmt); ok && len(as.Lhs) == len(as.Rhs) {
+			for i, r := range as.Rhs {
+				if fl, ok := r.(*ast.FuncLit); ok {
+					bound[src(as.Lhs[i])] = fl
+				}
+			}
+		}
+		return true
+	})
+	ast.Inspect(fd.Body, func(n ast.Node) bool {
+		if kv, ok := n.(*ast.KeyValueExpr); ok && src(kv.Key) == "HandleResp" {
+			switch v := kv.Value.(type) {
+			case *ast.FuncLit:
+				found = v
+			case *ast.Ident:
+				found = bound[v.Name]
+			}
+		}
+		return true
+	})
+	return found
+}
+
 // extractQuery records the order of the validation steps of GetBlock's
 // response handler and of cfiltersQuery.handleResponse, which failure branches
 // ban, where the cache / persistence calls sit, and the range constants of
@@ -66,18 +172,41 @@ func extractQuery() {
 	if gb == nil {
 		fail("query.go: method ChainService.GetBlock")
 	} else {
-		var handler *ast.FuncLit
-		ast.Inspect(gb.Body, func(n ast.Node) bool {
-			as, ok := n.(*ast.AssignStmt)
-			if ok && len(as.Lhs) == 1 && src(as.Lhs[0]) == "handleResp" && len(as.Rhs) == 1 {
-				if fl, ok := as.Rhs[0].(*ast.FuncLit); ok {
-					handler = fl
+		handler := responseHandlerOf(f, gb)
+		if handler != nil {
+			// map the locals to the vocabulary of the facts, by role
+			ren := map[string]string{}
+			if r := recvName(gb); r != "" {
+				ren[r] = "s"
+			}
+			if ps := paramNames(gb.Type); len(ps) >= 1 {
+				ren[ps[0]] = "blockHash"
+			}
+			hp := paramNames(handler.Type)
+			for i, to := range []string{"req", "resp", "peer"} {
+				if i < len(hp) && hp[i] != "_" {
+					ren[hp[i]] = to
 				}
 			}
-			return true
-		})
+			for _, st := range handler.Body.List {
+				if len(hp) >= 2 {
+					if x := typeAssertLHS(st, hp[1], "*wire.MsgBlock"); x != "" && x != "_" {
+						ren[x] = "response"
+					}
+				}
+				// the captured variable the accepted block is stored in
+				if as, ok := st.(*ast.AssignStmt); ok && as.Tok == token.ASSIGN && len(as.Lhs) == 1 && len(as.Rhs) == 1 {
+					if id, ok := as.Lhs[0].(*ast.Ident); ok {
+						if _, isID := as.Rhs[0].(*ast.Ident); isID {
+							ren[id.Name] = "foundBlock"
+						}
+					}
+				}
+			}
+			renameIdents(gb, ren)
+		}
 		if handler == nil {
-			fail("query.go: GetBlock: handleResp := func literal")
+			fail("query.go: GetBlock: the function literal registered as HandleResp of its query.Request")
 		} else {
 			var steps []string
 			flags := map[string]bool{}
@@ -163,6 +292,75 @@ func extractCFilters(l *leanFile, f *ast.File, shape map[string]any) {
 	if hr == nil {
 		fail("query.go: method cfiltersQuery.handleResponse")
 		return
+	}
+	{
+		ren := map[string]string{}
+		q := recvName(hr)
+		if q != "" {
+			ren[q] = "q"
+		}
+		hp := paramNames(hr.Type)
+		for i, to := range []string{"req", "resp"} {
+			if i < len(hp) && hp[i] != "_" {
+				ren[hp[i]] = to
+			}
+		}
+		respVar, idxVar := "", ""
+		for _, st := range hr.Body.List {
+			if len(hp) >= 2 {
+				if x := typeAssertLHS(st, hp[0], "*wire.MsgGetCFilters"); x != "" && x != "_" {
+					ren[x] = "request"
+				}
+				if x := typeAssertLHS(st, hp[1], "*wire.MsgCFilter"); x != "" && x != "_" {
+					ren[x], respVar = "response", x
+				}
+			}
+			switch v := st.(type) {
+			case *ast.AssignStmt:
+				if len(v.Rhs) != 1 || len(v.Lhs) == 0 {
+					continue
+				}
+				switch r := v.Rhs[0].(type) {
+				case *ast.IndexExpr:
+					if src(r.X) == q+".headerIndex" && respVar != "" && src(r.Index) == respVar+".BlockHash" {
+						idxVar = src(v.Lhs[0])
+						ren[idxVar] = "i"
+					}
+				case *ast.CallExpr:
+					switch src(r.Fun) {
+					case "gcs.FromNBytes":
+						ren[src(v.Lhs[0])] = "filter"
+					case "builder.MakeHeaderForFilter":
+						ren[src(v.Lhs[0])] = "filterHeader"
+					}
+				}
+			case *ast.DeclStmt:
+				if gd, ok := v.Decl.(*ast.GenDecl); ok {
+					for _, sp := range gd.Specs {
+						vs, ok := sp.(*ast.ValueSpec)
+						if !ok {
+							continue
+						}
+						for i, n := range vs.Names {
+							if i >= len(vs.Values) {
+								continue
+							}
+							ix, ok := vs.Values[i].(*ast.IndexExpr)
+							if !ok || src(ix.X) != q+".filterHeaders" || idxVar == "" {
+								continue
+							}
+							switch strings.ReplaceAll(src(ix.Index), " ", "") {
+							case idxVar:
+								ren[n.Name] = "curHeader"
+							case idxVar + "-1":
+								ren[n.Name] = "prevHeader"
+							}
+						}
+					}
+				}
+			}
+		}
+		renameIdents(hr, ren)
 	}
 	var steps []string
 	guardsOK := true // every rejecting `if` is exactly { return noProgress }
@@ -278,8 +476,19 @@ func extractCFilters(l *leanFile, f *ast.File, shape map[string]any) {
 		switch v := n.(type) {
 		case *ast.AssignStmt:
 			if len(v.Lhs) == 1 {
-				switch src(v.Lhs[0]) {
+				switch x := src(v.Lhs[0]); x {
 				case "startHeight", "stopHeight", "batchSize", "numFilters":
+					// `x = max(x, b)` is `if x < b { x = b }`, `x = min(x, b)` is `if x > b { x = b }`
+					if c, ok := v.Rhs[0].(*ast.CallExpr); ok && v.Tok == token.ASSIGN && len(c.Args) == 2 &&
+						(src(c.Fun) == "max" || src(c.Fun) == "min") && (src(c.Args[0]) == x) != (src(c.Args[1]) == x) {
+						b := src(c.Args[1])
+						if b == x {
+							b = src(c.Args[0])
+						}
+						op := map[string]string{"max": "<", "min": ">"}[src(c.Fun)]
+						arith = append(arith, "if "+x+" "+op+" "+b, x+" = "+b)
+						break
+					}
 					arith = append(arith, src(v))
 				}
 			}
